@@ -787,6 +787,9 @@ def dag_to_mag(G, L: Optional[Set] = None, S: Optional[Set] = None):
             # if A is in ansB and B is in ansA, A - B
             mag.add_edge(B, A, mag.undirected_edge_name)
 
+    # every observed node is a node of the MAG, also when it has no edge
+    mag.add_nodes_from(all_nodes - set(L) - set(S))
+
     return mag
 
 
